@@ -827,6 +827,9 @@ pub fn c13(em: &mut Emit, thorough: bool, seed: u64) {
         }
         if rng.chance(1, 3) {
             e.headers = vec![("x-ent-a".into(), random_header_bytes(&mut rng, 6))];
+        } else if rng.chance(1, 6) {
+            // the shortest header lines there are: a one-letter name, an empty value
+            e.headers = vec![("a".into(), vec![]), ("b".into(), b"1".to_vec())];
         }
         let field = |rng: &mut Rng, kind: u8| -> Option<Vec<u8>> {
             match rng.below(5) {
